@@ -4,7 +4,7 @@
   operation of `stepColl`) and through every history over all modelled operations (`Spec.runX`).
 
   Instance of the generic preservation of Proofs/C05ExtGen.lean with `P` = `Q` = the carried
-  invariant `UniqS` ("uniqueness among the scalar-keyed, covered documents"), which every basic
+  invariant `UniqS` ("uniqueness among the value-keyed, covered documents"), which every basic
   entry point preserves with no hypothesis; nothing is asked of the collections between the
   requests of a bulk.
 -/
@@ -43,31 +43,31 @@ theorem stepX_carried (cfg : Cfg) (now : Int) (c : Coll) (op : Val) (hU : UniqS 
   stepX_pres (pres cfg) (fun _ => True) (fun c h _ => h) now c op hU (fun _ _ => trivial)
 
 theorem stepX_uniq_inv_alt (cfg : Cfg) (now : Int) (c : Coll) (op : Val)
-    (hu : UniqInv c) (hs' : ScalarInv (stepX cfg now c op).1) : UniqInv (stepX cfg now c op).1 :=
+    (hu : UniqInv c) (hs' : ValueInv (stepX cfg now c op).1) : UniqInv (stepX cfg now c op).1 :=
   uniqInv_of_uniqS (stepX_carried cfg now c op (uniqS_of_uniqInv hu)) hs'
 
 theorem stepX_uniq_inv_check (cfg : Cfg) (now : Int) (c : Coll) (op : Val)
-    (h : (uniqB c && scalB (stepX cfg now c op).1) = true) : UniqInv (stepX cfg now c op).1 := by
+    (h : (uniqB c && valB (stepX cfg now c op).1) = true) : UniqInv (stepX cfg now c op).1 := by
   simp only [Bool.and_eq_true] at h
-  exact stepX_uniq_inv_alt cfg now c op ((uniqB_iff c).1 h.1) ((scalB_iff _).1 h.2)
+  exact stepX_uniq_inv_alt cfg now c op ((uniqB_iff c).1 h.1) ((valB_iff _).1 h.2)
 
 theorem stepXS_uniq_inv_alt (cfg : Cfg) (s : St) (op : Val)
-    (hu : UniqInv s.c) (hs' : ScalarInv (stepXS cfg s op).1.c) : UniqInv (stepXS cfg s op).1.c :=
+    (hu : UniqInv s.c) (hs' : ValueInv (stepXS cfg s op).1.c) : UniqInv (stepXS cfg s op).1.c :=
   uniqInv_of_uniqS (stepXS_pres (pres cfg) (fun _ => True) (fun c h _ => h) s op
     (uniqS_of_uniqInv hu) (fun _ _ => trivial)) hs'
 
 /-! ### histories -/
 
 theorem reachableX_uniq_alt (cfg : Cfg) (ops : List Val)
-    (hs : ScalarInv (runX cfg ops).2.c) : UniqInv (runX cfg ops).2.c := by
+    (hs : ValueInv (runX cfg ops).2.c) : UniqInv (runX cfg ops).2.c := by
   refine uniqInv_of_uniqS ?_ hs
   rw [runX_snd]
   exact history_pres (pres cfg) (fun _ => True) (fun c h _ => h)
     (fun s h => C06.observe_carried s h) ops {} (fun ix hix => by cases hix) (fun _ _ => trivial)
 
 theorem reachableX_uniq_check (cfg : Cfg) (ops : List Val)
-    (h : scalB (runX cfg ops).2.c = true) : UniqInv (runX cfg ops).2.c :=
-  reachableX_uniq_alt cfg ops ((scalB_iff _).1 h)
+    (h : valB (runX cfg ops).2.c = true) : UniqInv (runX cfg ops).2.c :=
+  reachableX_uniq_alt cfg ops ((valB_iff _).1 h)
 
 /-! ### a duplicate key inside a bulk -/
 
@@ -89,9 +89,9 @@ theorem bulkOne_insert_dup (cfg : Cfg) (now : Int) (c : Coll) (idx : Nat) (fs : 
 theorem bulk_dup_write_rejected (cfg : Cfg) (now : Int) (c : Coll) (idx : Nat) (d : Val)
     (ix : Index) (p : Val × Val)
     (hr : c.Recorded)
-    (hs : ScalarInv c) (hix : ix ∈ c.indexes) (hu : ix.unique = true) (hnt : c.ttlIndexes = [])
+    (hs : ValueInv c) (hix : ix ∈ c.indexes) (hu : ix.unique = true) (hnt : c.ttlIndexes = [])
     (hp : p ∈ c.docs) (hcp : covers ix p.2 = true) (hcd : covers ix (patchDT d) = true)
-    (hsd : scalarKeys ix (patchDT d) = true)
+    (hsd : valueKeys ix (patchDT d) = true)
     (heq : keyEq (keyVals ix p.2) (keyVals ix (patchDT d)) = true)
     (hid : ∃ fs, d = .doc fs ∧ dhas "_id" fs = true)
     (hk : ∃ k, storeKey (idOfDoc (patchDT d)) = .ok k)
